@@ -290,6 +290,8 @@ class Engine:
         self.dead = False
         self.steps = 0
         self.mainpos = 0
+        self.opdone = False
+        self.stopreq = False
         self.maxsteps = plan.get("maxsteps", 3000)
         self._starting = None
         self.installed = False
@@ -338,6 +340,8 @@ class Engine:
         elif kind == "awaitcompletion":
             self.waiter_task = task
             self.record("WaitCall", {})
+        elif kind == "doStop":
+            pass    # experiment.stop(): recorded as Sigint by the caller
         else:
             raise MachineryError(f"unexpected coroutine {kind}")
         return HarnessFuture(self, task)
@@ -428,9 +432,17 @@ class Engine:
                 opts.append(("plock", pid))
             elif p.state in ("body", "skip") and not self.hold_exit():
                 opts.append(("pexit", pid))
+        if self.phase == "run" and not self.stopreq and self.model_op() == ["wait", "sigint"]:
+            opts.append(("sigint",))
         if main:
             opts.append(("main",))
         return opts
+
+    def model_op(self):
+        """The operation the main program of the specification is at (s.mpc)"""
+        prog = self.plan["program"]
+        k = self.mainpos + (1 if self.opdone else 0)
+        return list(prog[k]) if k < len(prog) else None
 
     def choose(self, opts):
         labels = [self.label(o) for o in opts]
@@ -471,6 +483,11 @@ class Engine:
             th = self.threads.pop(o[1])
             th.complete()
             self.record("ThreadDone", {"kind": th.kind, "j": self.key_of(th.job) if th.job is not None else "-"})
+        elif o[0] == "sigint":
+            # SIGINT handler of the main thread (SignalHandler.__call__): xp.stop()
+            self.stopreq = True
+            self.xp.stop()
+            self.record("Sigint", {})
         elif o[0] == "plock":
             p = self.procs[o[1]]
             self.lock_take(p.paths["lock"], ("proc", p.pid))
@@ -540,6 +557,8 @@ class Engine:
             return ("TaskStep", {"j": self.key_of(t.xv_job)})
         if kind == "awaitcompletion":
             return ("WaiterStep", {})
+        if kind == "doStop":
+            return ("StopStep", {})
         return ("Internal", {})
 
     def origin_name(self, dep):
@@ -613,6 +632,7 @@ class Engine:
         self.outputs = {}
         self.waiter = "none"
         self.waiter_task = None
+        self.stopreq = False
         self.tokens = {n: VToken(self, n, c) for n, c in self.plan.get("tokens", {}).items()}
         launcher = DirectLauncher(VConnector(self, self.workdir / "local"))
         self.xp = experiment(self.workdir, "xv", launcher=launcher)
@@ -707,6 +727,11 @@ class Engine:
             raise
         except Exception as e:
             self.waiter = "EXC:" + type(e).__name__
+        if xp.exitMode and xp.unfinishedJobs > 0:
+            # stopped: the program ends while jobs are running -- for the workspace, the scheduler process dies
+            self.kill_scheduler()
+            self.record("WaitReturnStopped", {"r": self.waiter})
+            return
         self.phase = "closed"
         self.record("WaitReturn", {"r": self.waiter})
 
@@ -732,6 +757,7 @@ class Engine:
                 if self.phase != "run" and op[0] not in ("restart", "rmdone"):
                     continue
                 try:
+                    self.opdone = False
                     if op[0] == "submit":
                         self.op_submit(op[1])
                     elif op[0] == "wait":
@@ -754,6 +780,7 @@ class Engine:
                         self.start_scheduler()
                     else:
                         raise MachineryError(f"unknown op {op}")
+                    self.opdone = True
                     if self.phase == "run":
                         self.idle()
                 except SchedulerDeath:
@@ -866,6 +893,8 @@ class Engine:
             if th.inc == self.inc and live
         )
         st["waiter"] = self.waiter_state() if live else "none"
+        st["stopreq"] = bool(live and self.stopreq)
+        st["exitmode"] = bool(live and self.xp.exitMode)
         world = {}
         for name in self.plan["jobs"]:
             paths = self.paths.get(name)
@@ -902,8 +931,17 @@ class RandomChooser:
         prof = self.PROFILES[self.rng.randrange(len(self.PROFILES))]
         self.pstep = prof[0] if pstep is None else pstep
         self.pmain = prof[1] if pmain is None else pmain
+        self.psig = None
 
     def choose(self, labels, engine):
+        if "sigint" in labels:
+            # Ctrl-C: early, late or never, depending on the execution
+            if self.psig is None:
+                self.psig = random.Random(self.rng.random()).choice([0.0, 0.01, 0.03, 0.1, 0.4])
+            if random.Random(self.rng.random()).random() < self.psig:
+                return labels.index("sigint")
+            rest = [k for k, x in enumerate(labels) if x != "sigint"]
+            return rest[self.choose([labels[k] for k in rest], engine)]
         if "step" in labels and self.rng.random() < self.pstep:
             return labels.index("step")
         if "main" in labels and self.rng.random() < self.pmain:
